@@ -92,6 +92,11 @@ const (
 	BRcpThreeAbnormalCleanups
 	BRcpNilCleanup
 	BRcpCustomDrawnInCleanup
+	// two cleanups, the one registered later (run first) falsifies, the older one then skips / has a rejected draw
+	BCleanupSkipCleanupPanic
+	BCleanupSkipCleanupFatal
+	BCleanupRejectCleanupPanic
+	BCleanupPanicCleanupSkip // the other order: the skip is in flight when the older cleanup panics
 	numBeh
 )
 
@@ -102,7 +107,8 @@ var behNames = [...]string{"pass", "Skip", "Errorf", "Errorf;Skip", "Fail", "Fat
 	"rcp:cleanups-then-Fatalf", "rcp:cleanups-then-Skip", "rcp:cleanups-then-panic", "rcp:cleanups-then-Errorf", "rcp:Custom-with-cleanups", "rcp:Custom-skips-once", "rcp:cleanup-registered-from-goroutine", "rcp:Custom-registers-then-Fatalf", "rcp:Custom-registers-then-panics", "rcp:last-cleanup-skips", "rcp:Skip-with-Cleanup(Errorf)",
 	"Cleanup(Errorf);Skip", "Errorf;rejected-draw", "Cleanup(Skip)", "Error()", `Errorf("")`, "FailNow@D", "div-by-zero@A", "div-by-zero@B",
 	"Cleanup(Skip);Fatalf", "Cleanup(Skip);panic", "Cleanup(rejected-draw);Fatalf", "Cleanup(rejected-draw);panic", "Errorf;Fatalf@A",
-	"rcp:two-panicking-cleanups-above-a-plain-one", "rcp:Fatalf-cleanup-and-Skip-cleanup-above-plain-ones", "rcp:three-abnormal-cleanups-interleaved", "rcp:nil-cleanup-between-real-ones", "rcp:Custom-drawn-inside-a-cleanup"}
+	"rcp:two-panicking-cleanups-above-a-plain-one", "rcp:Fatalf-cleanup-and-Skip-cleanup-above-plain-ones", "rcp:three-abnormal-cleanups-interleaved", "rcp:nil-cleanup-between-real-ones", "rcp:Custom-drawn-inside-a-cleanup",
+	"Cleanup(Skip)+Cleanup(panic)", "Cleanup(Skip)+Cleanup(Fatalf)", "Cleanup(rejected-draw)+Cleanup(panic)", "Cleanup(panic)+Cleanup(Skip)"}
 
 func (b Beh) String() string { return behNames[b] }
 
@@ -301,6 +307,18 @@ func Perform(t *rapid.T, b Beh, msg string) {
 		rejectingGen.Draw(t, "never")
 	case BCleanupSkip:
 		t.Cleanup(func() { t.Skip("skip from cleanup " + msg) })
+	case BCleanupSkipCleanupPanic:
+		t.Cleanup(func() { t.Skip("skip from the older cleanup " + msg) })
+		t.Cleanup(func() { sitePanic("boom in cleanup " + msg) })
+	case BCleanupSkipCleanupFatal:
+		t.Cleanup(func() { t.SkipNow() })
+		t.Cleanup(func() { t.Fatalf("fatal in cleanup: %s", msg) })
+	case BCleanupRejectCleanupPanic:
+		t.Cleanup(func() { rejectingGen.Draw(t, "never") })
+		t.Cleanup(func() { sitePanic("boom in cleanup " + msg) })
+	case BCleanupPanicCleanupSkip:
+		t.Cleanup(func() { sitePanic("boom in cleanup " + msg) })
+		t.Cleanup(func() { t.Skip("skip from the newer cleanup " + msg) })
 	case BErrorEmpty:
 		t.Error()
 	case BErrorfEmpty:
